@@ -216,6 +216,30 @@ def separate_conductors(rng, k=2, level=0):
     return dict(meshes=meshes, interfaces=interfaces, domains=domains, cond=cond,
                 info=dict(kind="separate", topology="separate", objects=objs, centre=(0, 0, 0), outer_radius=4.0))
 
+def capped_nested(radii, sigmas, level=1, capped=None, rng=None):
+    """nested spheres in which some interfaces are stored as TWO meshes (north and south caps sharing the equator ring):
+    the two caps of an interface separate the same two domains.  capped = indices of the interfaces stored that way"""
+    import models
+    n = len(radii); vo, to = models.octasphere(level); vi, ti = models.icosphere(max(level - 1, 0) if level > 1 else 1)
+    capped = set(range(n)) if capped is None else set(capped)
+    eps = 1e-12
+    vn, tn = models.submesh(vo, to, lambda t: all(vo[a][2] >= -eps for a in t))
+    vs_, ts_ = models.submesh(vo, to, lambda t: all(vo[a][2] <= eps for a in t))
+    meshes = []; interfaces = []; domains = []; cond = {}
+    for k, r in enumerate(radii):
+        if k in capped:
+            parts = [("n%d" % k, models.transform(vn, r), list(tn)), ("s%d" % k, models.transform(vs_, r), list(ts_))]
+            if rng is not None and rng.random() < 0.5: parts.reverse()
+            meshes += parts; interfaces.append(("I%d" % k, [(+1, parts[0][0]), (+1, parts[1][0])]))
+        else:
+            meshes.append(("m%d" % k, models.transform(vi, r), list(ti))); interfaces.append(("I%d" % k, [(+1, "m%d" % k)]))
+        b = [(-1, "I%d" % k)] + ([(+1, "I%d" % (k - 1))] if k > 0 else [])
+        domains.append(("D%d" % k, b)); cond["D%d" % k] = sigmas[k]
+    domains.append(("Air", [(+1, "I%d" % (n - 1))])); cond["Air"] = 0.0
+    return dict(meshes=meshes, interfaces=interfaces, domains=domains, cond=cond,
+                info=dict(kind="nested", topology="capped", radii=list(radii), centre=(0, 0, 0), axes=(1, 1, 1), level=level,
+                          inner="D0", outer_radius=radii[-1], capped=sorted(capped)))
+
 # ------------------------------------------------------------------ probes
 def probe_points(m, rng, n, margin=0.04):
     """random points of the bounding box (slightly enlarged) farther than `margin` (relative to the box size)
@@ -412,8 +436,10 @@ def write_geom(m, dirpath, fmt="tri", style="1.1", rng=None, stem="model", token
     g = os.path.join(dirpath, stem + ".geom")
     L = []
     def cm():
-        if T.get("comments") and rng is not None and rng.random() < 0.5:
-            L.append(rng.choice(["# a comment", "", "#", "   # indented comment", "#Mesh x: \"nothing\""]))
+        # blocks of comment lines, blank lines and indented comments in any succession (skip_comments must take them all)
+        if T.get("comments") and rng is not None and rng.random() < 0.6:
+            for _ in range(rng.randint(1, 4)):
+                L.append(rng.choice(["# a comment", "", "#", "   # indented comment", "#Mesh x: \"nothing\"", "\t# tab", "  "]))
     L.append("# Domain Description %s" % T["version"]); cm()
     if T["version"] == "1.0":
         L.append(""); L.append("Interfaces %d Mesh" % len(T["meshes"])); L.append("")
@@ -491,7 +517,9 @@ def write_cond(m, dirpath, rng=None, stem="model", extra=None, header=True):
     for it in lines:
         if it[0] == "c":
             L.append(rng.choice(["# comment", "#" + (items[0][1] if items else "x") + " 5.0", "   # spaces before", "#", "# Air 3"]) if rng is not None else "# c")
-            if rng is not None and rng.random() < 0.3: L.append(rng.choice(["", "\t", "  "]))
+            if rng is not None:
+                # ... possibly followed by blank lines and further (indented) comments: still one comment block
+                for _ in range(rng.randint(0, 3)): L.append(rng.choice(["", "\t", "  ", "# more", "    # indented", "#"]))
         else:
             sep = rng.choice([" ", "\t", "   "]) if rng is not None else " "
             L.append("%s%s%s" % (it[1], sep, _f(it[2])))
